@@ -142,6 +142,12 @@ def plan(tier, seed):
     for suite in ROGUE_SUITES:
         for ck in ROGUE_CLIENT_CERTS:
             batches.append({"gen": "rogue", "suites": [suite], "client_certs": [ck], "seed": seed * 1000003 + 950000})
+    # genuine peers exchanging application traffic (many streams, resets, STOP_SENDING, key updates, connection-ID changes)
+    # over lossy networks: the inputs are genuine packets, in the orders and with the losses a network produces — what
+    # the connection makes of them must never be an exception out of receive_datagram / datagrams_to_send / handle_timer
+    nlive, per = (96, 8) if tier == "quick" else (6000, 25)
+    for i in range(0, nlive, per):
+        batches.append({"gen": "live", "seeds": [seed * 1000003 + 990000 + i + k for k in range(per)]})
     # genuine peers over the configuration space of C03(c)
     for i in range(6 if tier == "quick" else 60):
         batches.append({"gen": "configs", "seed": seed * 1000003 + 970000 + 40 * i, "count": 40})
@@ -746,6 +752,17 @@ def run_batch(batch):
             res.count("cpu_s_" + batch["fam"], round(time.process_time() - t0, 2))
         elif batch["gen"] == "replay":
             run_replay(batch, res, lib, gen)
+        elif batch["gen"] == "live":
+            from ..scenarios import gen_scenario
+            from ..simprops import run_case
+
+            for sd in batch["seeds"]:
+                sc = gen_scenario(sd)
+                sim, ok = run_case(sc, [], res, {"gen": "live", "seeds": [sd]}, tap=False)
+                res.count("live_scenarios")
+                res.count("live_datagrams_delivered", sim.fates.counts.get("deliver", 0))
+                res.nontrivial.add("live:%s:%s" % (sd % 997, sim.stopped_reason))
+            res.count("cpu_s_live", round(time.process_time() - t0, 2))
         elif batch["gen"] == "configs":
             run_configs(batch, res)
             res.count("cpu_s_configs", round(time.process_time() - t0, 2))
